@@ -19,6 +19,17 @@ PROPS = {
                      "impl Default for Stack<T> (delegates to new)"],
     ),
 }
+PROPS["C03"] = dict(
+    title="Parser-state combinators are all-or-nothing and match exactly",
+    verus_units=[("core", {}, "")],
+    kani=[], searcher=None,
+    design_ref="DESIGN.md section 5, C03",
+    technique="contract-based deductive verification (Verus): frame law on every ParserState combinator with closure laws, exact functional contracts on the Position matchers over vstd's UTF-8 theory; real code extracted from /repo each run",
+    level_text="(in progress)",
+    level_note="(in progress)",
+    assumptions=[], not_covered=[],
+)
+
 PROPS["C16"] = dict(
     title="Unicode property rules are consistent for every code point",
     verus_units=[], kani=["unicode"], searcher="unicode",
